@@ -96,6 +96,8 @@ class Parser:
                 args.append(self.expr())
                 while self.peek()[1] == ",":
                     self.next()
+                    if self.peek()[1] == ")":      # trailing comma (rustfmt wraps long argument lists that way)
+                        break
                     args.append(self.expr())
             self.expect(")")
             e = ("call", name, e, args)
@@ -155,7 +157,18 @@ GUARD_RE = re.compile(r"\bif\s*!\s*\(\s*(\w+)\s*>\s*0\.\s*\)\s*\{\s*return\s*;\s
 def mark_guards(body: str) -> str:
     if GUARD_MARK in body:
         raise TranslateError("reserved marker name used in the source")
-    return GUARD_RE.sub(lambda m: f"{GUARD_MARK} {m.group(1)};", body)
+    body = GUARD_RE.sub(lambda m: f"{GUARD_MARK} {m.group(1)};", body)
+    # the same guard written as a block that runs to the end of the body: `if vN > 0. { <rest of the body> }` — nothing follows
+    # the block, so it is `if !(vN > 0.) { return; }` followed by the block's statements
+    m = re.search(r"\bif\s+(\w+)\s*>\s*0\.0?\s*\{", body)
+    if m:
+        depth, i = 1, m.end()
+        while i < len(body) and depth > 0:
+            depth += {"{": 1, "}": -1}.get(body[i], 0)
+            i += 1
+        if depth == 0 and body[i:].strip() == "" and "else" not in body[m.end():i]:
+            body = body[:m.start()] + f"{GUARD_MARK} {m.group(1)};" + body[m.end():i - 1]
+    return body
 
 
 def xyz_helper_is_plain() -> bool:
@@ -171,6 +184,7 @@ class BodyTranslator:
         self.lets = []
         self.outs = []
         self.guard = None    # Lean Ex text of the early-return guard, if the body has one
+        self.galias = {}     # rust local name -> atom field, for `let g = &mut gradient[self.i]`
 
     def nat_expr(self, e):
         """An i32 expression over the integer parameter, as Lean Nat text."""
@@ -240,6 +254,13 @@ class BodyTranslator:
         st = st.strip()
         if not st:
             return
+        m = re.fullmatch(r"let\s+(\w+)\s*=\s*&mut\s+gradient\[self\.(\w+)\]", st)
+        if m:
+            # `let g = &mut gradient[self.i]` followed by `g.x += ...`: one mutable borrow per atom, same updates
+            if m.group(2) not in self.atoms:
+                raise TranslateError(f"{self.kind}: gradient of unknown atom field {m.group(2)}")
+            self.galias[m.group(1)] = m.group(2)
+            return
         m = re.fullmatch(r"let\s+(\w+)\s*=\s*coordinates\[self\.(\w+)\]\.([xyz])", st)
         if m:
             name, atom, ax = m.groups()
@@ -257,6 +278,20 @@ class BodyTranslator:
                 raise TranslateError(f"{self.kind}: coordinate of unknown atom field {atom}")
             for name, ax in ((nx, "x"), (ny, "y"), (nz, "z")):
                 self.names[name] = f"(.var {3 * self.atoms.index(atom) + AX[ax]})"
+            return
+        m = re.fullmatch(r"let\s+&?\s*Point\s*\{([^}]*)\}\s*=\s*&?\s*coordinates\[self\.(\w+)\]", st, flags=re.S)
+        if m:
+            # `let Point { x: a, y: b, z: c } = coordinates[self.i]` (fields in any order, shorthand `x` for `x: x`)
+            fields, atom = m.groups()
+            if atom not in self.atoms:
+                raise TranslateError(f"{self.kind}: coordinate of unknown atom field {atom}")
+            seen = set()
+            for f in [f.strip() for f in fields.split(",") if f.strip()]:
+                fm = re.fullmatch(r"([xyz])(?:\s*:\s*(\w+))?", f)
+                if not fm or fm.group(1) in seen:
+                    raise TranslateError(f"{self.kind}: unsupported field pattern {f!r} in a Point destructuring")
+                seen.add(fm.group(1))
+                self.names[fm.group(2) or fm.group(1)] = f"(.var {3 * self.atoms.index(atom) + AX[fm.group(1)]})"
             return
         m = re.fullmatch(r"let\s+(\w+)\s*=\s*self\.exponent\.value", st)
         if m:
@@ -287,6 +322,9 @@ class BodyTranslator:
             self.lets.append((vid, name, text))
             self.names[name] = f"(.var {vid})"
             return
+        m = re.fullmatch(r"(\w+)\.([xyz])\s*\+=\s*(.*)", st, flags=re.S)
+        if m and m.group(1) in self.galias:
+            st = f"gradient[self.{self.galias[m.group(1)]}].{m.group(2)} += {m.group(3)}"
         m = re.fullmatch(r"gradient\[self\.(\w+)\]\.([xyz])\s*\+=\s*(.*)", st, flags=re.S)
         if m:
             atom, ax, rhs = m.groups()
